@@ -1,1 +1,40 @@
-From FF Require Import Pmm.Bitmap.
+(** Non-vacuity for C03, and the witness for the known finding. *)
+From Coq Require Import NArith List Lia Sorted Bool.
+From FF Require Import Lib.Word Gen.Consts_mm_pmm Pmm.Boot Pmm.BootProofs Pmm.Bitmap Pmm.BitmapProofs Pmm.HistoryProofs
+  Pmm.InitProofs Pmm.TopProofs Props.C01_examples.
+Import ListNotations.
+Local Open Scope N_scope.
+
+Example C03_init_nonvacuous :
+  WFmap pm_map /\ WFkernel pm_map pm_kstart pm_kend /\ small_map pm_map /\
+  pm_init_result = (InitOk pm_a0 pm_b0, snd pm_init_result).
+Proof.
+  split; [exact C01_map_nonvacuous|]. split; [exact C01_kernel_nonvacuous|]. split; [exact C01_small_nonvacuous|].
+  exact (proj1 C01_init_nonvacuous).
+Qed.
+
+(** usable frames: 194 whole frames of available RAM minus kernel frames 3,4,5 minus early frame 1 *)
+Example C03_usable_count_example :
+  total_frames pm_map = 194 /\ usable_count pm_map pm_kstart pm_kend [1] = 190.
+Proof. vm_compute. split; reflexivity. Qed.
+
+(** the totals after each step of the example history *)
+Example C03_stats_example :
+  map (fun ra => (a_total (snd ra), a_reserved (snd ra))) (run pm_a0 pm_ops) =
+  [(194, 5); (194, 6); (194, 5); (194, 5); (194, 5); (194, 5); (194, 5); (194, 6); (194, 7)].
+Proof. vm_compute. reflexivity. Qed.
+
+(** the seams failing: errors, not crashes *)
+Example C03_seam_examples :
+  fst (pmm_init pm_map pm_kstart pm_kend 4095 0) = InitErrReserve /\
+  fst (pmm_init pm_map pm_kstart pm_kend two64 1) = InitErrMap /\
+  fst (pmm_init [mkRegion 0x3000 0x3000 1] 0x3000 0x6000 two64 0) = InitErrOOM.
+Proof. vm_compute. repeat split. Qed.
+
+(** a one-frame region holding the kernel image (panicked before b196d33) *)
+Example C03_one_frame_region_example :
+  match fst (pmm_init [mkRegion 0x1000 0x1000 1; mkRegion 0x10000 0x41000 1] 0x1000 0x2000 two64 0) with
+  | InitOk a _ => a_total a = 66 /\ a_reserved a = 2
+  | _ => False
+  end.
+Proof. vm_compute. split; reflexivity. Qed.
